@@ -57,6 +57,13 @@ fn gen_parties(ctx: &GenCtx) -> Vec<Value> {
                 }
                 recipients.push(json!({"key": k, "anon": p.chance(1, 3)}));
             }
+            // a recipient whose addressed encryption subkey is the second or third subkey of its certificate
+            if p.chance(1, 6) {
+                let k = if p.chance(1, 2) { "multisub-v4" } else { "multisub-v6" };
+                if !recipients.iter().any(|r: &Value| jstr(r, "key") == k) {
+                    recipients.push(json!({"key": k, "anon": p.chance(1, 2), "sub": p.range(1, 2)}));
+                }
+            }
             let np = if recipients.is_empty() { p.range(1, 3) } else { p.below(4).min(3) };
             let passwords: Vec<Value> = (0..np)
                 .map(|j| {
@@ -303,7 +310,9 @@ fn run_parties(plan: &Value, rec: &mut Rec) {
                 if pkesks.len() == recipients.len() {
                     let which = 1 + pick % (recipients.len() - 1); // never the first: the deviating key is recovered later
                     let victim = recipients[which];
-                    let sub = &victim.public.public_subkeys[0];
+                    // (the subkey this recipient was addressed with)
+                    let sub_idx = cfg["recipients"][which].get("sub").and_then(|x| x.as_u64()).unwrap_or(0) as usize;
+                    let sub = &victim.public.public_subkeys[sub_idx];
                     let mut rng = crate::rng::SimRng::new(pick as u64, "c18conflict", false);
                     let other_raw: pgp::composed::RawSessionKey = match &wrong {
                         PlainSessionKey::V3_4 { key, .. } | PlainSessionKey::V6 { key } | PlainSessionKey::V5 { key } => key.clone(),
